@@ -34,13 +34,13 @@ def _expected(r):
     return out
 
 
-def tpl_map(size, conc, stars, L, bad, cb, x2, a2, x3, a3, t, bk=0, _twin=False):
+def tpl_map(size, conc, stars, L, bad, cb, x2, a2, x3, a3, t, bk=0, emp=-1, _twin=False):
     w = World("c05.map")
     code = 0
     try:
         pool = TaskPool(pool_size=size)
         it = Interp(w, pool, cbkind=cb)
-        r = it.map(L, conc, stars=stars, bad=bad, badkind=bk)
+        r = it.map(L, conc, stars=stars, bad=bad, badkind=bk, empty=emp)
 
         def created():
             reg = pool._task_groups.get(r["group"])
@@ -94,32 +94,32 @@ def tpl_map(size, conc, stars, L, bad, cb, x2, a2, x3, a3, t, bk=0, _twin=False)
 
 def families(tier):
     thorough = tier == "thorough"
-    P = ["size", "conc", "stars", "L", "bad", "cb", "x2", "a2", "x3", "a3", "t", "bk"]
+    P = ["size", "conc", "stars", "L", "bad", "cb", "x2", "a2", "x3", "a3", "t", "bk", "emp"]
     lmax = 4 if thorough else 3
     fams = [Family(
         name="order", fn="tpl_map", params=P,
         pre=["size >= 0", "conc >= 1", "0 <= stars <= 2", "0 <= L <= %d" % lmax, "-1 <= bad < L or bad == -1", "bad >= -1",
-             "cb == 1", "x2 == %d" % NOP, "a2 == 0", "x3 == %d" % NOP, "a3 == 0", "t >= 0", "0 <= bk <= 1", "bk == 0 or (stars >= 1 and bad >= 0)"],
+             "cb == 1", "x2 == %d" % NOP, "a2 == 0", "x3 == %d" % NOP, "a3 == 0", "t >= 0", "0 <= bk <= 1", "bk == 0 or (stars >= 1 and bad >= 0)", "-1 <= emp <= 2", "emp == -1 or (stars >= 1 and bad == -1 and emp < L)"],
         parts=parts_product(stars=range(3), L=range(lmax + 1)),
-        twin_pre=["stars == 1", "L == 3"], twin_args=[2, 2, 1, 3, 1, 1, NOP, 0, NOP, 0, 9, 0])]
+        twin_pre=["stars == 1", "L == 3"], twin_args=[2, 2, 1, 3, 1, 1, NOP, 0, NOP, 0, 9, 0, -1])]
     if not thorough:
         fams.append(Family(
             name="inter", fn="tpl_map", params=P,
             pre=["size >= 0", "1 <= conc <= 2", "stars == 0", "L == 3", "bad == -1", "cb == 1 or cb == 3",
-                 "0 <= x2 < %d" % NOP, "a2 >= -1", "0 <= x3 <= %d" % NOP, "a3 >= -1", "t >= 4", "bk == 0"],
+                 "0 <= x2 < %d" % NOP, "a2 >= -1", "0 <= x3 <= %d" % NOP, "a3 >= -1", "t >= 4", "bk == 0", "emp == -1"],
             parts=parts_product(cb=(1, 3), x2=range(NOP), x3=range(NOP + 1)),
-            twin_pre=["cb == 1", "x2 == 0", "x3 == 2"], twin_args=[2, 2, 0, 3, -1, 1, 0, 0, 2, 1, 9, 0]))
+            twin_pre=["cb == 1", "x2 == 0", "x3 == 2"], twin_args=[2, 2, 0, 3, -1, 1, 0, 0, 2, 1, 9, 0, -1]))
     else:
         fams.append(Family(
             name="inter", fn="tpl_map", params=P,
             pre=["size >= 0", "conc >= 1", "0 <= stars <= 2", "L == 3", "bad == -1", "cb == 1",
-                 "0 <= x2 < %d" % NOP, "a2 >= -1", "0 <= x3 <= %d" % NOP, "a3 >= -1", "t >= 0", "bk == 0"],
+                 "0 <= x2 < %d" % NOP, "a2 >= -1", "0 <= x3 <= %d" % NOP, "a3 >= -1", "t >= 0", "bk == 0", "emp == -1"],
             parts=parts_product(stars=range(3), x2=range(NOP), x3=range(NOP + 1)),
-            twin_pre=["x2 == 0", "x3 == 2", "stars == 0"], twin_args=[2, 2, 0, 3, -1, 1, 0, 0, 2, 1, 9, 0]))
+            twin_pre=["x2 == 0", "x3 == 2", "stars == 0"], twin_args=[2, 2, 0, 3, -1, 1, 0, 0, 2, 1, 9, 0, -1]))
         fams.append(Family(
             name="bad", fn="tpl_map", params=P,
             pre=["size >= 0", "1 <= conc <= 2", "0 <= stars <= 2", "L == 3", "0 <= bad <= 2", "cb == 3",
-                 "0 <= x2 < %d" % NOP, "a2 >= -1", "x3 == %d" % NOP, "a3 == 0", "t >= 4", "0 <= bk <= 1", "bk == 0 or stars >= 1"],
+                 "0 <= x2 < %d" % NOP, "a2 >= -1", "x3 == %d" % NOP, "a3 == 0", "t >= 4", "0 <= bk <= 1", "bk == 0 or stars >= 1", "emp == -1"],
             parts=parts_product(stars=range(3), bad=range(3)),
-            twin_pre=["x2 == 0", "stars == 0", "bad == 2"], twin_args=[3, 2, 0, 3, 2, 3, 0, 0, NOP, 0, 9, 0]))
+            twin_pre=["x2 == 0", "stars == 0", "bad == 2"], twin_args=[3, 2, 0, 3, 2, 3, 0, 0, NOP, 0, 9, 0, -1]))
     return fams
